@@ -51,6 +51,13 @@ Theorem C06_completed_final : forall l w l' w',
         is_complete (t_status tk) = true -> t_status tk' = t_status tk)).
 Proof. exact legal_completed_final. Qed.
 
+(* B2'. Rows may be ADDED by a legal step (synthetic stages; the tasks a builder creates at plan time): an added stage
+   row is NOT_STARTED with every task NOT_STARTED - a row never appears in a started or completed status. *)
+Theorem C06_added_rows_fresh : forall l w l' w' i st',
+  legal l w l' w' -> nth_error l i = None -> nth_error l' i = Some st' ->
+  s_status st' = NOT_STARTED /\ Forall (fun tk => t_status tk = NOT_STARTED) (s_tasks st').
+Proof. exact legal_added_fresh. Qed.
+
 (* B3. Whole runs, NO premise on the state: for tasks that never suspend and never jump, every commit of every run
    from any state without pending re-arm messages (in particular from the initial state of any workflow) — any
    list of deliveries in any order, redeliveries, crashes after any commit, recovery sweeps, cancels, signals,
@@ -89,6 +96,7 @@ Print Assumptions C06_commit_legal.
 Print Assumptions C06_run_legal_partial.
 Print Assumptions C06_commit_legal_nosuspend.
 Print Assumptions C06_completed_final.
+Print Assumptions C06_added_rows_fresh.
 Print Assumptions C06_table_completed_no_exit.
 Print Assumptions C06_table_completed_final.
 Print Assumptions C06_table_total.
